@@ -12,12 +12,26 @@
 
 pub const VERIF_WMAX: usize = 96;
 
+// NOTE: the initial values are deliberately odd bit patterns.  Kani's code
+// generator merges read-only constant allocations with *any* global of the same
+// bytes: with `VERIF_N = 0` the std constant `RawVec::ZERO_CAP` (eight zero
+// bytes) was emitted as a read of VERIF_N, so every empty Vec created after the
+// k-th input had capacity k (caught by the native replay: non-reproducing
+// counterexamples).  Unique patterns cannot collide with a constant.
+pub const VERIF_BASE: usize = 0x5EED_C0DE_0000_0000;
+pub const VERIF_FILL: u64 = 0xA5A5_5A5A_C3C3_3C3C;
 #[cfg(kani)]
 #[no_mangle]
-pub static mut VERIF_W: [u64; VERIF_WMAX] = [0; VERIF_WMAX];
+pub static mut VERIF_W: [u64; VERIF_WMAX] = [VERIF_FILL; VERIF_WMAX];
 #[cfg(kani)]
 #[no_mangle]
-pub static mut VERIF_N: usize = 0;
+pub static mut VERIF_N: usize = VERIF_BASE;
+/// running checksum over the stored witness; the final `VERIF_WITNESS_GUARD`
+/// assertion reads it, which keeps the VERIF_W stores inside the cone of
+/// influence when CBMC slices the formula.
+#[cfg(kani)]
+#[no_mangle]
+pub static mut VERIF_ACC: u64 = 0x0DD5_EED5_1234_4321;
 
 pub trait VIn: Sized {
     fn to_u64(&self) -> u64;
@@ -43,7 +57,9 @@ impl VIn for bool {
 pub fn vin<T: VIn + kani::Arbitrary>() -> T {
     let x: T = kani::any();
     unsafe {
-        VERIF_W[VERIF_N] = x.to_u64();
+        let k = VERIF_N - VERIF_BASE;
+        VERIF_W[k] = x.to_u64();
+        VERIF_ACC = VERIF_ACC.rotate_left(7) ^ VERIF_W[k];
         VERIF_N += 1;
     }
     x
@@ -99,6 +115,13 @@ pub fn assume(c: bool) {
 /// `reach = true`; this assertion must then be *violated* (and the violating
 /// trace must replay natively up to this line).
 pub fn reach_end(reach: bool) {
+    #[cfg(kani)]
+    {
+        let s: u64 = kani::any();
+        let acc = unsafe { VERIF_ACC };
+        kani::assume(s != acc);
+        assert!(s != acc, "VERIF_WITNESS_GUARD");
+    }
     if reach {
         assert!(false, "VERIF_REACH_END");
     }
